@@ -219,12 +219,25 @@ def save_structure(ctx, R="R-C17-save-guard"):
             child = a
         return out
 
+    def callee_quals(c):
+        """qualified names a call may resolve to: directly, or through a local bound to `A if test else B`"""
+        q = prog.qualify(f.module, c.func, f)
+        if q:
+            return {q: None}
+        if isinstance(c.func, ast.Name) and len(defs.get(c.func.id, ())) == 1 and isinstance(defs[c.func.id][0], ast.IfExp):
+            ie = defs[c.func.id][0]
+            qa, qb = prog.qualify(f.module, ie.body, f), prog.qualify(f.module, ie.orelse, f)
+            if qa and qb:
+                return {qa: (astq.text(ie.test), True), qb: (astq.text(ie.test), False)}
+        return {}
+
     writers = {"npy": [], "npz": [], "raw": []}
     for c in astq.func_calls(f):
-        q = prog.qualify(f.module, c.func, f) or ""
+        qs = callee_quals(c)
+        q = next(iter(qs), "") if len(qs) == 1 else ""
         if q == "numpy.save":
             writers["npy"].append(c)
-        elif q in ("numpy.savez", "numpy.savez_compressed"):
+        elif qs and set(qs) <= {"numpy.savez", "numpy.savez_compressed"}:
             writers["npz"].append(c)
         elif astq.attr_call(c, "tofile"):
             writers["raw"].append(c)
@@ -260,17 +273,35 @@ def save_structure(ctx, R="R-C17-save-guard"):
     ctx.need(npzs, R2, ".npz branch not found")
     npz = npzs[0]
     st = [n for n in ast.walk(npz) if isinstance(n, ast.Assign) and isinstance(n.targets[0], ast.Subscript) and astq.text(n.value) == "self._stats"]
-    ok = len(st) == 1 and astq.text(st[0].targets[0].slice) == "key"
-    ctx.check(ok, R2, f, st[0] if st else MISSING(npz), "the statistics matrix is stored in the archive under `key`")
-    sv = [c for c in ast.walk(npz) if isinstance(c, ast.Call) and prog.qualify(f.module, c.func, f) in ("numpy.savez", "numpy.savez_compressed")]
-    kinds = {prog.qualify(f.module, c.func, f) for c in sv}
-    ok = kinds == {"numpy.savez", "numpy.savez_compressed"} and all(astq.text(c.args[0]) == "wfilename" and any(k.arg is None for k in c.keywords) for c in sv)
-    ctx.check(ok, R2, f, npz, "the archive is rewritten with savez / savez_compressed(wfilename, **entries) according to `compress`")
+    sv = [c for c in writers["npz"] if any(x is c for x in ast.walk(npz))]
+    kinds = {}
     for c in sv:
-        g = [a for a in astq.ancestors(pm, c) if isinstance(a, ast.If) and astq.text(a.test) == "compress"]
-        want_body = prog.qualify(f.module, c.func, f) == "numpy.savez_compressed"
-        ok = bool(g) and (any(x is c for s_ in g[0].body for x in ast.walk(s_)) == want_body)
-        ctx.check(ok, R2, f, c, "%s is used iff compress is %s" % (astq.text(c.func), want_body))
+        for q, sel in callee_quals(c).items():
+            kinds.setdefault(q, []).append((c, sel))
+    ok = set(kinds) == {"numpy.savez", "numpy.savez_compressed"} and all(astq.text(c.args[0]) == fname and any(k.arg is None for k in c.keywords) for c in sv)
+    ctx.check(ok, R2, f, npz, "the archive is rewritten with savez / savez_compressed(wfilename, **entries) according to `compress`",
+              "npz writers are %s" % sorted(kinds))
+    for q, lst in kinds.items():
+        want_body = q == "numpy.savez_compressed"
+        for c, sel in lst:
+            if sel is not None:
+                ok = sel[0] == "compress" and sel[1] == want_body
+            else:
+                g = [a for a in astq.ancestors(pm, c) if isinstance(a, ast.If) and astq.text(a.test) == "compress"]
+                ok = bool(g) and (any(x is c for s_ in g[0].body for x in ast.walk(s_)) == want_body)
+            ctx.check(ok, R2, f, c, "%s is used iff compress is %s" % (q.replace("numpy", "np"), want_body))
+    # entries are merged so that a new entry REPLACES an old one with the same key
+    for c in sv:
+        stars = [k for k in c.keywords if k.arg is None]
+        named = [k for k in c.keywords if k.arg is not None]
+        ctx.check(len(stars) == 1 and not named, "R-C17-entry-replaces", f, c,
+                  "all entries reach numpy through one mapping (an entry saved again under its key replaces the old one)",
+                  "the writer is called with %d `**` mappings%s: when the loaded archive already holds the key being saved (a second save "
+                  "under the same key, keeping the other entries) Python raises TypeError for the duplicate keyword instead of replacing the entry"
+                  % (len(stars), " and explicit keywords" if named else ""))
+    if len(sv) and all(len([k for k in c.keywords if k.arg is None]) == 1 for c in sv):
+        ok = len(st) == 1 and astq.text(st[0].targets[0].slice) == "key"
+        ctx.check(ok, R2, f, st[0] if st else MISSING(npz), "the statistics matrix is stored in the archive under `key`")
     # overwrite flag consulted for loading the existing archive
     R3 = "R-C17-overwrite-flag"
     loads = [c for c in ast.walk(npz) if isinstance(c, ast.Call) and prog.qualify(f.module, c.func, f) == "numpy.load"]
@@ -299,6 +330,18 @@ def default_key(ctx, R="R-C17-default-key"):
         any(isinstance(x, ast.Assign) and isinstance(x.value, ast.Constant) and x.value.value == 0 for x in ast.walk(blk))
     pattern = any(isinstance(x, ast.Constant) and isinstance(x.value, str) and x.value.startswith("arr_") for x in ast.walk(blk))
     ctx.check(pattern, R, f, blk, "the default key follows the pattern arr_<k>", "the default key does not follow arr_<k>")
+    # the search stops only at an UNUSED key: stopping at a key the archive already holds overwrites that entry
+    pmk = astq.parents(f)
+    for br in [x for x in ast.walk(blk) if isinstance(x, ast.Break)]:
+        gs = [a for a in astq.ancestors(pmk, br) if isinstance(a, ast.If) and any(a is y for y in ast.walk(blk))]
+        for g_ in gs:
+            t = g_.test
+            if isinstance(t, ast.BoolOp) and isinstance(t.op, ast.Or):
+                extra = [astq.text(v) for v in t.values if not (isinstance(v, ast.Compare) and len(v.ops) == 1 and isinstance(v.ops[0], ast.NotIn))]
+                if extra:
+                    ctx.bad(R, f, g_, "the search for the default key also stops when `%s`, i.e. at a key the archive already holds: an un-keyed save in "
+                            "keeping mode then silently replaces an existing entry (for example another speaker's statistics of the same shape)"
+                            % extra[0][:80], "the default key is the first UNUSED arr_<k>")
     ctx.check(bool(member) and starts0, R, f, blk,
               "the default key is the first unused arr_<k>, found by testing membership in the archive from k = 0",
               "the default key is chosen without searching the archive's keys from arr_0 upward (%s): when the archive holds named entries "
